@@ -107,7 +107,7 @@ impl Op {
 pub struct Knobs {
     /// limit of the server's ConcurrencyLayer (in-flight requests)
     pub concurrency: usize,
-    /// server stdout pipe capacity in bytes (None = unbounded)
+    /// server stdout pipe capacity in write calls, two per message (None = unbounded)
     pub out_capacity: Option<usize>,
     /// each frame the client writes is cut into at most this many chunks
     pub max_chunks: usize,
